@@ -79,6 +79,11 @@ def vector_max(*args):
 supported_functions = {"max": vector_max, "min": vector_min, "exp": np.exp, "floor": np.floor, "SRC_POP_AVG": None, "TGT_POP_AVG": None, "SRC_POP_SUM": None, "TGT_POP_SUM": None, "STITCH_AVG": None, "STITCH_SUM": None, "pi": np.pi, "cos": np.cos, "sin": np.sin, "sqrt": np.sqrt, "ln": np.log, "rand": np.random.rand, "randn": np.random.randn, "sdiv": sdiv}
 
 
+# Only the following syntax elements are permitted in parameter functions (in addition to operator tokens). In particular,
+# attribute access, method calls, lambdas, comprehensions, subscripts, f-strings and starred/keyword arguments are not allowed
+_supported_nodes = (ast.Expression, ast.BinOp, ast.UnaryOp, ast.Compare, ast.BoolOp, ast.IfExp, ast.Call, ast.Name, ast.Constant, ast.Load, ast.operator, ast.unaryop, ast.cmpop, ast.boolop)
+
+
 class _DivTransformer(ast.NodeTransformer):
     """
     Helper class to use sdiv everywhere
@@ -145,6 +150,12 @@ def parse_function(fcn_str: str) -> tuple:
     assert len(fcn_str) < 1800  # Function string must be less than 1800 characters
     fcn_str = fcn_str.replace(":", "___")
     fcn_ast = ast.parse(fcn_str, mode="eval")
+    for node in ast.walk(fcn_ast):
+        assert isinstance(node, _supported_nodes), f"Only arithmetic expressions are allowed in functions ('{type(node).__name__}' in {fcn_str} is not supported)"
+        if isinstance(node, ast.Call):
+            assert isinstance(node.func, ast.Name) and not node.keywords, f"Only direct calls to supported functions are allowed (in {fcn_str})"
+        elif isinstance(node, ast.Constant):
+            assert isinstance(node.value, (int, float)), f"Only numeric constants are allowed in functions (in {fcn_str})"
     fcn_ast = _DivTransformer().visit(fcn_ast)
     fcn_ast = ast.fix_missing_locations(fcn_ast)
     dep_list = []
